@@ -98,6 +98,73 @@ example : ∃ b, basisAt ([3, 0, 5] : List ℚ) 7 = some b ∧ b.sum = 1 := by
   refine ⟨_, basisAt_eq_basis (by decide) 7, ?_⟩
   exact basisAt_sum_one _ 7 (by decide) (by simp) _ (basisAt_eq_basis (by decide) 7)
 
+omit [DecidableEq F] in
+/-- Vandermonde: a solution `c` of the model's Vandermonde system `V(xs) · c = ys` (the system
+`vandermonde.Interpolate` hands to `SolveRight`) is the coefficient list of the Lagrange interpolant -/
+theorem vandermonde_interpolate (xs ys c : List F) (hnd : xs.Nodup) (hc : c.length = xs.length)
+    (hsol : mulVec (xs.map fun x => powers x xs.length) c = ys) :
+    (∑ i ∈ Finset.range c.length, C (c.getD i 0) * X ^ i : F[X])
+      = Lagrange.interpolate (Finset.range xs.length) (fun j => xs.getD j 0) (fun j => ys.getD j 0) := by
+  apply Lagrange.eq_interpolate_of_eval_eq _ (nodeFn_injOn hnd)
+  · have := degree_toPoly_lt c
+    rw [hc] at this; simpa [toPoly] using this
+  · intro i hi
+    have := vandermonde_solution_eval xs ys c hc hsol i (by simpa using hi)
+    rw [eval_eq_toPoly] at this
+    exact this
+
+omit [DecidableEq F] in
+/-- the Vandermonde system built from the evaluations of a coefficient list `cs` (degree `< n`) at
+distinct nodes is solvable and `cs` is its only solution: solving it recovers the polynomial -/
+theorem vandermonde_recovers (xs cs : List F) (hnd : xs.Nodup) (hcs : cs.length = xs.length) :
+    mulVec (xs.map fun x => powers x xs.length) cs = xs.map (Poly.eval cs) ∧
+    ∀ c : List F, c.length = xs.length →
+      mulVec (xs.map fun x => powers x xs.length) c = xs.map (Poly.eval cs) → c = cs := by
+  have hex : mulVec (xs.map fun x => powers x xs.length) cs = xs.map (Poly.eval cs) := by
+    unfold mulVec
+    rw [List.map_map]
+    apply List.map_congr_left
+    intro x _
+    simp only [Function.comp]
+    rw [← hcs, dot_powers]
+  refine ⟨hex, ?_⟩
+  intro c hc hsol
+  apply toPoly_injective (hc.trans hcs.symm)
+  have h1 := vandermonde_interpolate xs _ c hnd hc hsol
+  have h2 := vandermonde_interpolate xs _ cs hnd hcs hex
+  exact h1.trans h2.symm
+
+example : mulVec (([3, 0, 5] : List ℚ).map fun x => powers x 3) [5, 0, 1]
+    = ([3, 0, 5] : List ℚ).map (Poly.eval [5, 0, 1]) :=
+  (vandermonde_recovers ([3, 0, 5] : List ℚ) [5, 0, 1] (by decide) rfl).1
+
+/-- full statement for `vandermonde.Interpolate` (model `vandermondeInterpolate`, which calls the
+Gauss–Jordan model `LinAlg.solveRight`) -/
+def vandermonde_interpolate_statement (F : Type) [Field F] [DecidableEq F] : Prop :=
+  ∀ (xs cs : List F), xs.Nodup → xs ≠ [] → cs.length = xs.length →
+    vandermondeInterpolate xs (xs.map (Poly.eval cs)) = .ok cs
+
+/-- PARTIAL: `vandermonde_interpolate_statement` relative to soundness and completeness of
+`LinAlg.solveRight` on this system (these are the Gauss–Jordan theorems of `Props/C20.lean`,
+proved separately; they enter here as hypotheses `hsound`, `hcomplete`).  What is proved here
+unconditionally is the interpolation content: `vandermonde_recovers`. -/
+theorem vandermonde_interpolate_partial (xs cs : List F) (hnd : xs.Nodup) (hne : xs ≠ [])
+    (hcs : cs.length = xs.length)
+    (hsound : ∀ c, solveRight (xs.map fun x => powers x xs.length) xs.length (xs.map (Poly.eval cs)) = some c →
+      c.length = xs.length ∧ mulVec (xs.map fun x => powers x xs.length) c = xs.map (Poly.eval cs))
+    (hcomplete : solveRight (xs.map fun x => powers x xs.length) xs.length (xs.map (Poly.eval cs)) = none →
+      ¬ ∃ c : List F, c.length = xs.length ∧
+        mulVec (xs.map fun x => powers x xs.length) c = xs.map (Poly.eval cs)) :
+    vandermondeInterpolate xs (xs.map (Poly.eval cs)) = .ok cs := by
+  unfold vandermondeInterpolate
+  rw [if_neg (by simp), if_neg (by simpa using hne)]
+  obtain ⟨hex, huniq⟩ := vandermonde_recovers xs cs hnd hcs
+  cases h : solveRight (xs.map fun x => powers x xs.length) xs.length (xs.map (Poly.eval cs)) with
+  | none => exact absurd ⟨cs, hcs, hex⟩ (hcomplete h)
+  | some c =>
+    obtain ⟨h1, h2⟩ := hsound c h
+    simp only [huniq c h1 h2]
+
 end Scalar
 
 section Exponent
